@@ -1,10 +1,14 @@
 (* C03 — renaming preserves which binding every name refers to.
    PROVED here: the name assignment (NameAssigner, Model/Renamer.v) over ANY table of bindings, for an ARBITRARY cost
    model `should` and an ARBITRARY name source `pick` that only has to return a name outside the set it is given.
-   NOT proved (decided by the resolver-based oracle only, see DESIGN 5.3): that the table produced by the analysis
-   (mapper / bind_names / resolve_names) refines CPython's scoping rules. *)
+   PROVED as well: the lookup of resolve_names.get_binding (clause list regenerated from the source), run on the
+   per-namespace data the binder produces, finds the namespace CPython's symtable pass assigns the name to - for every
+   chain of enclosing namespaces - except for the designed merge of names both bound and loaded in a class body.
+   NOT proved (checked per program by leg A and the resolver-based oracle, see DESIGN 0.2): that mapper / bind_names put
+   every occurrence in the right namespace and every binding operation in the right per-namespace set. *)
 From Coq Require Import String.
 From PM Require Import Model.Base Model.Renamer Proofs.RenamerProofs Model.RenamerRun Gen.NameGen Model.Resolve Proofs.ResolveProofs.
+From PM Require Import Model.ScopeBase Gen.ResolveNames Model.Scope Proofs.ScopeProofs.
 Open Scope bool_scope.
 
 (* two different bindings that are visible in a common namespace (their reservation scopes intersect) end up with the
@@ -51,6 +55,21 @@ Theorem C03_resolution_preserved : forall par bs,
 Proof. exact resolution_preserved. Qed.
 Print Assumptions C03_resolution_preserved.
 
+(* the same, with the coverage premise discharged: the reservation scope renamer.reservation_scope builds (the owner and
+   every namespace walked from each reference site up to the owner; `rscope`, compared with the real sets by leg R)
+   contains the whole walk, so every reference site of every binding keeps resolving to it under the new spelling *)
+Theorem C03_resolution_preserved_by_reservation_scope : forall par bs,
+  separated bs -> unique_names bs -> unique_ids bs ->
+  forall fuel (sites : rb -> list N),
+    (forall b, In b bs -> forall m, In m (rscope fuel par (r_owner b) (sites b)) -> In m (r_scope b)) ->
+    forall ns b n0 n,
+      In b bs -> In ns (sites b) -> r_orig b = Some n0 -> r_final b = Some n ->
+      chain fuel par ns (r_owner b) <> None ->
+      resolve fuel par bs r_orig ns n0 = Some (r_id b) ->
+      resolve fuel par bs r_final ns n = Some (r_id b).
+Proof. exact resolution_preserved_by_reservation. Qed.
+Print Assumptions C03_resolution_preserved_by_reservation_scope.
+
 Theorem C03_assignment_gives_separation : forall pick should prefix_globals,
   (forall p l, ~ In (pick p l) l) ->
   forall owner bs rg, Forall wf_binding bs -> NoDup (map b_id bs) ->
@@ -75,6 +94,29 @@ Proof.
   - apply IH. now apply andb_true_iff in H as [_ H].
 Qed.
 Print Assumptions C03_generated_names_distinct.
+
+(* ---- the analysis: get_binding finds the owner CPython's symtable pass computes ---- *)
+(* for every chain of enclosing blocks (module outermost), every name: the minifier's bottom-up lookup over its own
+   per-namespace data (the `view` of each block) returns the depth of the namespace that the top-down symtable pass
+   (analyze_block / analyze_name) classifies the name into, unless the name is both bound and loaded in a class body *)
+Theorem C03_lookup_refines_symtable : forall outer f x,
+  wf_chain outer f = true -> merged_in_class f x = false ->
+  min_owner x (chain_view outer f) = ref_owner outer f x.
+Proof. exact lookup_refines_symtable. Qed.
+Print Assumptions C03_lookup_refines_symtable.
+
+(* the designed exception: such a name is attributed to the binding the code AROUND the class sees, while CPython makes
+   it local to the class (the binder pins the merged binding: checked by leg R and the interface oracle of C04) *)
+Theorem C03_class_body_merge : forall outer f x,
+  wf_chain outer f = true -> merged_in_class f x = true ->
+  min_owner x (chain_view outer f) = bound_below outer 0 none_bound x /\ ref_owner outer f x = length outer.
+Proof. exact class_body_merge. Qed.
+Print Assumptions C03_class_body_merge.
+
+(* a reference never resolves to a namespace nested deeper than the one it is written in *)
+Theorem C03_owner_encloses_reference : forall outer f x, wf_chain outer f = true -> ref_owner outer f x <= length outer.
+Proof. exact owner_le_depth. Qed.
+Print Assumptions C03_owner_encloses_reference.
 
 (* non-vacuity: a table with a parameter pinned to `x`, a local and a comprehension variable sharing namespace 1 *)
 Definition ex_bs : list binding := [
